@@ -16,6 +16,8 @@ print("|---|---|---|")
 for s in sorted(res):
     v = res[s]
     prop = s.split("-")[0]
+    if s == "C12-C" and (not v or "error" in v):
+        print("| %s | %s | retired: fix 61668f6 (a problem is published at the label that lies in the document) removed its mechanism - the label handed to map_label is now always one of the document, so looking the text up once per document is correct; caught before that by C12 R-C12-panic, C05 R-C05-prov |" % (s, desc.get(s, ""))); continue
     if not isinstance(v, dict) or "error" in v:
         print("| %s | %s | n/a (%s) |" % (s, desc.get(s, ""), (v or {}).get("error", "no patch")[:60])); continue
     if not v and s in ("C05-B", "C15-D"):
